@@ -87,7 +87,7 @@ def gen_program(rng, counters):
     counters["sizeof"] += 1
     items.append(["zlast:"])
     # make every referenced local exist somewhere at the end so that most programs link
-    for sc, loc in set((i[1], i[2]) for it in items for i in it if isinstance(i, tuple) and i[0] == "N"):
+    for sc, loc in sorted(set((i[1], i[2]) for it in items for i in it if isinstance(i, tuple) and i[0] == "N")):
         if (sc, loc) not in defined and not sc.startswith("S") and sc != "Tail":
             items.append([f"@defl {sc}.{loc}, 9"])
     return items
